@@ -27,7 +27,7 @@ tvars == <<vars, l, pend>>
 
 ToSet(seq) == {seq[i] : i \in DOMAIN seq}
 MadeOf(seq) == {[id |-> seq[i][1], v |-> seq[i][2]] : i \in DOMAIN seq}
-DescOf(x, ver, out) == [tid |-> x.tid, ver |-> ver, ins |-> ToSet(x.ins), out |-> out, fee |-> x.fee,
+DescOf(x, ver, out) == [tid |-> x.tid, ver |-> ver, ins |-> ToSet(x.ins), out |-> out, fee |-> x.fee, bl |-> x.bl,
                         made |-> MadeOf(x.made)]
 Report(i, E, what, want) == PrintT("OUT " \o ToJson([line |-> i, what |-> what, ev |-> E, want |-> want]))
 
@@ -39,7 +39,7 @@ TraceInit ==
     /\ l = 1 /\ pend = {}
     /\ cfg = [dt |-> 0, mi |-> 0, md |-> 0, rt |-> 0]
     /\ owned = <<>> /\ locked = <<>> /\ txs = <<>>
-    /\ now = 0 /\ nextId = 1 /\ nextTx = 1
+    /\ now = 0 /\ nextId = 1 /\ nextTx = 1 /\ lag = 0
     /\ act = [op |-> "Init"] /\ reply = NoReply
 
 TReset(i, E) ==
@@ -49,7 +49,7 @@ TReset(i, E) ==
                    LET j == CHOOSE q \in DOMAIN E.owned : E.owned[q][1] = k
                    IN [v |-> E.owned[j][2], m |-> E.owned[j][3]]]
     /\ locked' = <<>> /\ txs' = <<>>
-    /\ now' = 0 /\ nextId' = E.nid /\ nextTx' = 1
+    /\ now' = 0 /\ nextId' = E.nid /\ nextTx' = 1 /\ lag' = 0
     /\ act' = [op |-> "Init"] /\ reply' = NoReply
 
 \* a selection with a duplicated input: reported; the harness released it at once, so the
@@ -88,6 +88,8 @@ TBcast(i, E)    == E.op = "Bcast"    /\ \/ E.r = "acc" /\ BcastAcc(E.tid)
 TMine(i, E)     == E.op = "Mine"     /\ Mine
 TReward(i, E)   == E.op = "Reward"   /\ Reward(E.v, E.id)
 TRestart(i, E)  == E.op = "Restart"  /\ Restart
+TLag(i, E)      == E.op = "Lag"      /\ LagBegin(E.k)
+TCatchUp(i, E)  == E.op = "CatchUp"  /\ CatchUp
 
 \* Balance() and SpendableOutputs() against the three views; disagreement is reported
 TObs(i, E) ==
@@ -101,7 +103,9 @@ TObs(i, E) ==
           ELSE pend = {} /\    \* inside a Par block a wrong view just rules this order out
                Report(i, E, bad, [sp |-> BalSpendable, conf |-> BalConfirmed, imm |-> BalImmature,
                                   unc |-> BalUnconfirmed, list |-> ListSpendable,
-                                  v2spent |-> PoolSpentBy({2}) \cap ToSet(E.list)])
+                                  v2spent |-> PoolSpentBy({2}) \cap ToSet(E.list), lag |-> lag,
+                                  spm |-> SumV({k \in DOMAIN owned : owned[k].m <= lag /\ ~IsLocked(k) /\ k \notin PoolSpent}),
+                                  confm |-> SumV({k \in DOMAIN owned : owned[k].m <= lag})])
     /\ Obs
 
 \* the two views on their own (one wallet call each; the gated pairs race them separately)
@@ -137,7 +141,7 @@ TraceNext ==
            /\ Advance(i)
            /\ \/ TReset(i, E) \/ TFund(i, E) \/ TRedist(i, E) \/ TSplit(i, E) \/ TRelease(i, E)
               \/ TRelBegin(i, E) \/ TRelEnd(i, E) \/ TTick(i, E) \/ TBcast(i, E) \/ TMine(i, E)
-              \/ TReward(i, E) \/ TRestart(i, E) \/ TObs(i, E) \/ TObsBal(i, E) \/ TObsList(i, E)
+              \/ TReward(i, E) \/ TRestart(i, E) \/ TObs(i, E) \/ TObsBal(i, E) \/ TObsList(i, E) \/ TLag(i, E) \/ TCatchUp(i, E)
 
 TraceSpec == TraceInit /\ [][TraceNext]_tvars
 
